@@ -166,13 +166,15 @@ func hDrawStore() {
 	}
 }
 
+// hStoreExists: sqlStore.exists queries with a gorm struct condition, and gorm leaves zero-valued struct fields out
+// of the WHERE clause - so an empty argument matches every row (the model keeps that behaviour).
 func hStoreExists(s *sqlStore, serviceID string, credentialSubjectID string, presentationID string) (bool, error) {
 	hDrawStore()
 	if hS.storeErr {
 		return false, errors.New("harness: database error")
 	}
 	for _, e := range hS.entries {
-		if e.service == serviceID && e.subject == credentialSubjectID && e.id == presentationID {
+		if (serviceID == "" || e.service == serviceID) && (credentialSubjectID == "" || e.subject == credentialSubjectID) && (presentationID == "" || e.id == presentationID) {
 			return true, nil
 		}
 	}
